@@ -13,8 +13,11 @@ LEVEL_TEXT = ("Coq theorems (abstract *-field + DFT character; every N, NFFT >= 
               "ef/eb swap under reversal), arma2psd (coefficient j times tw(-m(j+1)) => rolled; conjugated => mirrored), minvar (aliased grids included), "
               "MultiTapering.__call__ with unity / eigen / adapt weights (adaptive iteration in lock step), arcovar / modcovar (corrmtx + Gaussian elimination on the "
               "normal equations with its exact zero tests + the 'wierd behaviour' assertion: equivariant under the diagonal unitary congruence of the Gram matrix; "
-              "modcovar is reversal invariant because forward and backward Gram blocks swap), arma.ma (aryule twice), and the composed class spectra of pyule, pburg, "
-              "pcovar, pmodcovar, pma, pminvar.  Class level over the pipeline table GENERATED from the source on this run: every class except pmusic/pev stores a scalar multiple "
+              "modcovar is reversal invariant because forward and backward Gram blocks swap), arma.ma (aryule twice), arma.arma_estimate (C15's model: AR / MA "
+              "coefficient j times phi(j+1), same variance and exception, for covariance-method oracles equivariant on the system they are handed -- proved for "
+              "the executable solver of Model/Ls.v, every phase offset, and for the elimination oracles of C15's correspondence run when no pivot vanishes, so "
+              "the instance tied to the code needs no oracle hypothesis; conjugation in the ordered *-field), and the composed class spectra of pyule, pburg, "
+              "pcovar, pmodcovar, pma, pminvar and the parma / pma objects of C15's class model (stored PSD rolled / mirrored).  Class level over the pipeline table GENERATED from the source on this run: every class except pmusic/pev stores a scalar multiple "
               "of the estimator's array, so roll / mirror commute with the store and scale() calls; the AR/MA/ARMA, minvar and multitaper classes store for "
               "real data 2 x the first onesided_len(NFFT) bins of the complex store (NFFT even and odd, any reachable state).  Real data: CORRELATION, LEVINSON, "
               "aryule, arburg commute with any *-homomorphism R -> F (real path = complex path) and return real parameters.  The DFT specification is tied to "
@@ -22,17 +25,19 @@ LEVEL_TEXT = ("Coq theorems (abstract *-field + DFT character; every N, NFFT >= 
               "comparing rotated / mirrored / folded / time-reversed estimates.")
 TRUSTED = ["Coq 8.16.1 kernel + vm_compute", "numpy.fft.fft is modelled by the DFT specification Theory/Dft.v (validated by the binary64 correspondence of this run)",
            "hand-written models Corr/Levinson (tie = exact correspondence at modulated inputs here), MaEst (arma.ma = aryule twice; exact correspondence here), "
+           "ArmaEst + ArmaCall (arma_estimate, parma / pma __call__: tie = C15's correspondence runs, and here arma_estimate at modulated inputs), "
            "Periodogram/Arma2psd/Yule/Burg/Minvar/Mtm/Ls (tie = the correspondence checks of C01/C08/C09/C12/C13/C16/C19)", "fail-closed AST translator tools/props/_pipelines.py + interpreter coq/Model/PipelineLib.v "
            "(validated against real objects by C08)", "dpss tapers are an oracle (real, symmetric/antisymmetric: hypotheses of the multitaper mirror / reversal theorems)",
            "Python harness"]
-UNPROVED = ["arma_estimate under modulation / conjugation (no model): the parma class spectrum follows from arma2psd_rotation / arma2psd_mirror only once it is "
-            "known -- search only",
+UNPROVED = ["that arcovar_marple / scipy lstsq inside arma_estimate are equivariant under modulation / conjugation of their input: oracle hypothesis of the "
+            "arma_estimate / parma theorems (proved for the executable solver of Model/Ls.v) -- the implementation side is covered by the search",
             "pmusic / pev (eigen), pdaniell, real-data correlogram fold (twosided_2_onesided), arma2psd norm=True: search only",
             "scipy.linalg.lstsq in arcovar / modcovar is represented by the executable solver ls_solve (agrees with every normal-equation solver on full-rank data, C09)",
             "conjugation / real-path theorems assume the divisors of the executed stages are nonzero (N, N-k, mean power, error powers, Burg denominators)"]
 ASSUMPTIONS = ["exact arithmetic in the theorems", "detrend off for the periodogram shift clause (subtracting the mean is not modulation covariant; the class default is None)"]
 RULE = ("complex data x shift m (any integer incl. negative and > NFFT) x every class x NFFT even/odd; conjugation; real data declared complex; "
-        "conj-time-reversal for the invariant estimators; non-trivial = non-constant data, m not a multiple of NFFT")
+        "conj-time-reversal for the invariant estimators; non-trivial = non-constant data, m not a multiple of NFFT; plus shift / mirror on "
+        "complex-typed data with zero imaginary part")
 GEN_NAMES = ['table_complete_c04', 'class_rotation', 'class_mirror', 'onesided_is_twice_half', 'onesided_length', 'routing_yule', 'routing_burg',
              'routing_minvar_mtm_fourier', 'routing_covar_ma']
 
@@ -272,3 +277,44 @@ def run(ctx):
             what = 'raised %s: %s' % (type(e).__name__, str(e)[:100])
         if what is not None:
             ctx.violation('%s/%s/%s' % (clause, cls, 'NFFT-even' if NFFT % 2 == 0 else 'NFFT-odd'), '%s (%s, NFFT=%d): %s' % (cls, clause, NFFT, what), rep)
+
+    # ---------------- arma_estimate (the model of C15, which the arma_estimate / parma theorems are about) at modulated inputs:
+    # x_n * tw4(-(m n)) is built inside Coq from the low-bit data, the implementation gets the same Gaussian-integer array
+    from props import _c03_arma_corr as AC
+
+    def modulated(rng_, x, cplx):
+        m = int(rng_.integers(-5, 6))
+        ph = np.array([(-1j) ** ((-m * j) % 4) for j in range(len(x))])
+        return np.asarray(x, dtype=complex) * ph, '(@vmod _ ops (@sphase _ tw4 (%d)) 0 %s)' % (m, czl(x)), {'m': m}
+    extra = 'Require Import Spectrum.Theory.Dft Spectrum.Proofs.ShiftTheory Spectrum.Proofs.ShiftDft_C04 Spectrum.Instances.QcCTw.\n'
+    cases, meta = AC.gen(ctx, ctx.q(8, 80), modulated, 'modulated')
+    for i in ctx.coq_cases('c04_arma_modulated', AC.pre(extra), cases, shard=4,
+                           descr='arma_estimate at inputs modulated by the period-4 character (every outcome code, AR / MA / rho, oracle residual exactly zero) vs Model.ArmaEst.arma_estimate at QcC'):
+        ctx.corr_disagreement('arma_estimate', i, meta[i])
+
+    # ---------------- complex-typed data whose imaginary part is identically zero (a real record declared complex): the two-sided clauses
+    # (shift, mirror) apply to them like to any complex data -- the layout must not depend on the VALUES of the imaginary parts
+    ZI = ['Periodogram', 'pcorrelogram', 'pburg', 'pyule', 'pma', 'pminvar']
+    for it in range(ctx.q(2, 8) * len(ZI)):
+        cls = ZI[it % len(ZI)]; clause = 'shift' if (it // len(ZI)) % 2 == 0 else 'mirror'
+        N = int(rng.integers(16, 49))
+        NFFT = int(rng.choice([N, N + 1, N + 2, N + 5, 2 * N, 2 * N + 1, 64, 67])); NFFT = max(NFFT, N)
+        xr, kind = E.gen_data(rng, N, False)
+        x = np.asarray(xr, dtype=complex)
+        cfg = E.default_cfg(cls, N, rng, True)
+        if cls == 'pcorrelogram':
+            NFFT = max(NFFT, 2 * cfg['lag'] + 2)
+        if cls == 'pminvar':
+            NFFT = max(NFFT, 2 * cfg['order'] + 1)
+        m = int(rng.choice([1, 2, 3, 5, -1, -4, NFFT - 1]))
+        ctx.count('search/zero-imag/%s/%s' % (clause, cls))
+        ctx.case(('zi', clause, cls, json.dumps(jcfg(cfg), sort_keys=True), NFFT, m, x.tobytes()), nontrivial=True,
+                 sample={'clause': clause, 'estimator': cls, 'cfg': jcfg(cfg), 'N': N, 'NFFT': NFFT, 'm': m, 'kind': kind + ' (complex dtype, zero imaginary part)'})
+        rep = {'clause': clause, 'estimator': cls, 'cfg': jcfg(cfg), 'NFFT': NFFT, 'm': m, 'x': vlib.hexv(x), 'datatype': 'complex'}
+        try:
+            what = check_case(clause, cls, x, cfg, NFFT, m)
+        except Exception as e:
+            what = 'raised %s: %s' % (type(e).__name__, str(e)[:100])
+        if what is not None:
+            ctx.violation('%s/%s/%s' % (clause, cls, 'NFFT-even' if NFFT % 2 == 0 else 'NFFT-odd'),
+                          '%s (%s, NFFT=%d, complex dtype with zero imaginary part): %s' % (cls, clause, NFFT, what), rep)
